@@ -46,7 +46,9 @@ def reference(count, period, ws, we, hits):
             ok = False
         if we and ts > we:
             ok = False
-        if last is not None and ts - last < fp * MS:
+        # "never two collections less than fire_period apart": without a period (0 or less) there is nothing to keep apart, also for a
+        # hit that carries a time BEFORE the last collection (a thread that was overtaken, a clock that was set back)
+        if last is not None and fp > 0 and ts - last < fp * MS:
             ok = False
         if ok and cond:
             n += 1
@@ -92,6 +94,8 @@ def seq_cases(ctx, world, clock, n):
                 t = last_fire_guess + fp * MS + rng.choice([-1, 0, 0, 1])     # on / around the period boundary
             elif r < 0.5:
                 t = t                                                         # same instant
+            elif r < 0.58:
+                t = t - rng.choice([1, 1000, MS, 5 * MS])                     # a time BEFORE the previous hit's (clock set back / overtaken)
             else:
                 t = t + rng.choice([1, 1000, MS // 2, MS, fp * MS // 2 + 1, fp * MS, 3 * fp * MS + 7])
             if (ws or we) and rng.random() < 0.3:
@@ -247,6 +251,12 @@ def conc_cases(ctx, world, clock, n):
         if fc != -1 and ncoll > fc:
             ctx.fail("%d collections with fire_count=%d when %d threads hit the tracepoint together (schedule %s)" % (
                 ncoll, fc, nt, j["controller"]), j, kind="schedule", tag="conc-count")
+        # liveness, where the limits are out of the question (no count limit, no period): every hit whose condition holds collects,
+        # however the threads interleave
+        if fc == -1 and int(period) == 0 and ncoll != sum(1 for _, c in ths if c):
+            ctx.fail("fire_count=-1 and fire_period=0 allow every hit; %d threads hit with a true condition and %d collected (schedule %s, "
+                     "hit times %s)" % (sum(1 for _, c in ths if c), ncoll, j["controller"], [ts - e2.BASE_NS for ts, _ in ths]), j,
+                     kind="schedule", tag="conc-live")
         times = sorted(s.ts_nanos for s in world.push.snapshots)
         for a, b in zip(times, times[1:]):
             if b - a < int(period) * MS:
